@@ -15,7 +15,7 @@
         failure is located at the token that holds that payload;
      html_select_default + the data: URI theorems of C18 (re-encoding round trips: the payload read back from the emitted
         URI is the sub-minifier's output, or the original URI is kept).
-   Refuted: dispatch on the type attribute is not case-insensitive (html_select_case_refuted = finding K103).
+   html_select_lower_case: the media type taken from a type attribute is looked up in lower case (K103, repaired in /repo).
    Ties: the extracted loop with 32 stub registries (each subset of js/css/html/svg/mathml, stubs that wrap or fail)
    must reproduce html.Minify's bytes / failure on 3,000 generated documents per run; html_select must name the minifier
    html.Minify really dispatches on for every (element, type value, KeepDefaultAttrVals) of a 224-row table.
@@ -63,6 +63,11 @@ Print Assumptions embed_fail_located.
 Theorem html_select_default : forall tag, html_select tag [] = raw_mimetype tag.
 Proof. exact HtmlSelect.html_select_default. Qed.
 Print Assumptions html_select_default.
+
+Theorem html_select_lower_case : forall tag ty mt, ty <> [] -> (beqb tag n_script || beqb tag n_style = true) -> beqb tag n_iframe = false ->
+  html_select tag ty = Some mt -> map to_lower mt = mt.
+Proof. exact HtmlSelect.html_select_lower_case. Qed.
+Print Assumptions html_select_lower_case.
 
 Section DataUri.
 Import DataUriModel DataUriSpec DataUriProofs.
